@@ -112,6 +112,13 @@
             ("{{ x|default('fb', true) }}", 0),
             ("{{ x|d('fb', true) }}", 0),
             ("{{ other.nope|default('fb', true) }}", 0),
+            // iterating an undefined THROUGH a filter is iterating it ("at every site of the language"): every built-in filter
+            // that walks its input
+            ("{{ x|list }}{# iter #}", 0b0011), ("{{ x|sort }}{# iter #}", 0b0011), ("{{ x|reverse }}{# iter #}", 0b0011), ("{{ x|unique }}{# iter #}", 0b0011),
+            ("{{ x|join(',') }}{# iter #}", 0b0011), ("{{ x|join }}{# iter #}", 0b0011), ("{{ x|groupby('a')|list }}{# iter #}", 0b0011), ("{{ x|groupby(attribute='a')|length }}{# iter #}", 0b0011),
+            ("{{ x|batch(2)|list }}{# iter #}", 0b0011), ("{{ x|slice(2)|list }}{# iter #}", 0b0011), ("{{ x|sum }}{# iter #}", 0b0011), ("{{ x|min }}{# iter #}", 0b0011), ("{{ x|max }}{# iter #}", 0b0011),
+            ("{{ x|map('upper')|list }}{# iter #}", 0b0011), ("{{ x|select|list }}{# iter #}", 0b0011), ("{{ x|reject|list }}{# iter #}", 0b0011), ("{{ x|selectattr('a')|list }}{# iter #}", 0b0011),
+            ("{{ x|map(attribute='a')|list }}{# iter #}", 0b0011),
             ("{% for n in nodes recursive %}{{ n.name }}{{ loop(n.children) }}{% endfor %}", 0b0011),
             ("{% for n in nodes recursive %}{{ n.name }}{{ loop(n.children)|upper }}{% endfor %}", 0b0011),
         ];
@@ -143,7 +150,8 @@
                 env2.add_template("t", src).unwrap();
                 let present = env2.get_template("t").unwrap().render(crate::context! { x => crate::context! { y => crate::context! { z => 1 } }, other => crate::context! { a => 1 }, nodes => vec![crate::context! { name => "a", children => Vec::<Value>::new() }] });
                 // (slicing the map used as the present value is a type error in every mode: not an undefined matter)
-                if !src.contains("x[") { assert!(present.is_ok(), "{src} with x present failed under {m:?}: {present:?}"); }
+                // (the map used as the present value is not a sensible input of every iterating filter either)
+                if !src.contains("x[") && !src.contains("{# iter #}") { assert!(present.is_ok(), "{src} with x present failed under {m:?}: {present:?}"); }
             }
             // monotone: once a stricter mode renders, every weaker mode renders identically
             for i in 0..4 { for j in i..4 {
